@@ -296,6 +296,46 @@ def sig_of(fn):
     return (pos, va[0] if va else None, kwo, vk[0] if vk else None)
 
 
+def _ident(s):
+    return isinstance(s, str) and s.isascii() and s.isidentifier()
+
+
+def _typestr_fine(t):
+    if not t or "\n" in t:
+        return False
+    try:
+        e = ast.parse("(%s)" % t, mode="eval").body
+    except SyntaxError:
+        return False
+    return not isinstance(e, ast.Tuple) or t.strip() == "()"
+
+
+def preconditions(c, schema):
+    from cincoconfig.fields import InstanceMethodField
+    from cincoconfig.stubs import get_annotation_typestr
+    if not _ident(c["_exp_class"]):
+        return False
+    for k, f in schema._fields.items():
+        if not _ident(k):
+            return False
+        if isinstance(f, InstanceMethodField):
+            sp = inspect.getfullargspec(f.method)
+            names = sp.args + sp.kwonlyargs + [x for x in (sp.varargs, sp.varkw) if x] + list(sp.annotations)
+            if not sp.args or not all(_ident(n) for n in names):
+                return False
+            objs = list(sp.annotations.values())
+        else:
+            objs = [f]
+        for o in objs:
+            try:
+                t = get_annotation_typestr(o)
+            except TypeError:
+                continue
+            if not _typestr_fine(t):
+                return False
+    return True
+
+
 def impl(c):
     import cincoconfig as cc
     from cincoconfig.fields import VirtualField, InstanceMethodField
@@ -344,7 +384,10 @@ def impl(c):
         return out
     c["_text"] = text
     proj = py_projection(text) if isinstance(text, str) else None
-    return ("ok", text, proj, buf.getvalue().splitlines())
+    # last component: do the preconditions of the C20 theorems hold for this case?  Independent of the
+    # model: names are ASCII identifiers, every annotation text parses as an expression on its own,
+    # and every method has a plain leading positional parameter
+    return ("ok", text, proj, buf.getvalue().splitlines(), preconditions(c, schema))
 
 
 # ---------------------------------------------------------------------------------------------
